@@ -40,6 +40,7 @@ type Server struct {
 	newMessageSignal       chan struct{}
 	newMessageSignalClosed bool
 	done                   chan struct{}
+	onceStart              sync.Once
 }
 
 // NewServer returns a new LocalMessageNotification server object
@@ -75,9 +76,18 @@ func NewServer(protoOptions protocol.ProtocolOptions, cfg *Config) *Server {
 		InitialState:        protocolStateIdle,
 	}
 	s.Protocol = protocol.New(protoConfig)
-	// Start background goroutine to clean up expired acknowledged IDs after Protocol is set
-	s.startExpirationCleaner()
 	return s
+}
+
+// Start starts the protocol and the background goroutine that cleans up expired
+// acknowledged IDs. The cleaner ends with the protocol (DoneChan), so it must not
+// be started for a server that is constructed but never started (the server half
+// of a client-role connection): it would never end.
+func (s *Server) Start() {
+	s.onceStart.Do(func() {
+		s.Protocol.Start()
+		s.startExpirationCleaner()
+	})
 }
 
 // AddMessage adds a message to the notification queue
